@@ -251,7 +251,8 @@ class Runner:
         if conn is None:
             audit = None
             if caller is not None:
-                audit = (caller["uid"], caller["pid"], 1 if caller["elevated"] else 0, dest[0], dest[1])
+                # the kernel's is_admin field is an integer: only the value 1 means elevated (a case may carry another raw value)
+                audit = (caller["uid"], caller["pid"], case.get("is_admin_raw", 1 if caller["elevated"] else 0), dest[0], dest[1])
             conn = st.connect(audit=audit, srcport=case.get("srcport"))
         self.token_seq += 1
         token = "t%d" % self.token_seq
@@ -293,9 +294,20 @@ class Runner:
                     if d:
                         now = d.decode("latin-1")
             o["now"] = now
+            if c.get("nomodel"):
+                # bodies of many MiB: the list-based model is not run on them (the driver would need gigabytes); the
+                # property oracle still judges the observation
+                continue
             lines.append(model_line(c["env"], c.get("caller"), c.get("dest"), o["req"], now))
-        outs = vlib.run_driver(lines)
-        for o, ml, line in zip(self.observations, outs, lines):
+        outs = iter(vlib.run_driver(lines))
+        lines_it = iter(lines)
+        for o in self.observations:
+            if o["case"].get("nomodel"):
+                o["model"] = None
+                chk.count("model_not_run_large_body")
+                oracle(chk, o, None)
+                continue
+            ml, line = next(outs), next(lines_it)
             m = parse_model(ml)
             o["model"] = m
             self.compare(o, m, line)
